@@ -39,6 +39,10 @@ import PV.Driver.MemoArgsOps
 import PV.Driver.RationalOps
 import PV.Driver.SymFftOps
 import PV.Driver.ForeignOps
+import PV.Driver.StockNodesOps
+import PV.Driver.CompileHistOps
+import PV.Driver.CCodeBodiesOps
+import PV.Driver.AlgoScalarOps
 /-
   Driver operations: one request S-expression in, one reply S-expression out.
 -/
@@ -250,6 +254,10 @@ def handlers : List (Sexp → Option Sexp) :=
    , handleRational
    , handleSymFft
    , handleForeignReg
+   , handleStockNodes
+   , handleCompileHist
+   , handleCCodeBodies
+   , handleAlgoScalar
    -- HANDLERS
   ]
 
